@@ -747,7 +747,7 @@ fn main() {
 
     // 2. random long histories over all signals (parent-state clearing, take order, group operations)
     let mut rng = Rng::new(o.seed ^ 0xC11);
-    let n = if o.thorough() { 40_000 } else { 2_500 };
+    let n = if o.thorough() { 200_000 } else { 2_500 };
     let all: Vec<&str> = CONDS.iter().skip(1).map(|c| c.0).collect();
     for _ in 0..n {
         let mut r = rng.fork();
